@@ -74,6 +74,10 @@ func newLazyError(f *Frame) lazyError {
 }
 
 func (e lazyError) Code() SystemErrCode {
+	if int(e.Header.PayloadSize()) <= _errCodeIndex {
+		// The frame is too short to contain a code; don't read bytes beyond its declared size.
+		return ErrCodeInvalid
+	}
 	return SystemErrCode(e.Payload[_errCodeIndex])
 }
 
